@@ -346,6 +346,18 @@ def _incl(incl, env: dict) -> str:
     raise Unsupported("include_deleted argument " + _u(incl))
 
 
+DICT_GET = {"self.files.get": ("g.files", "file", "folder"), "self.deleted_files.get": ("g.deletedFiles", "file", "folder"),
+            "self.folders.get": ("s.folders", "folder", "fs"), "self.deleted_folders.get": ("s.deletedFolders", "folder", "fs")}
+
+
+def _uuid_arg(n: ast.AST, env: dict) -> str:
+    if isinstance(n, ast.Name) and env.get(n.id) == "uuid":
+        return n.id
+    if isinstance(n, ast.Attribute) and n.attr == "uuid" and isinstance(n.value, ast.Name) and env.get(n.value.id) in ("file", "folder"):
+        return f"{n.value.id}.id"
+    raise Unsupported("uuid argument " + (_u(n) if n is not None else "<missing>"))
+
+
 LEDGER_IFS = ("if self._default_folder_scan_duration is not None:\n    folder.scan_duration = self._default_folder_scan_duration",)
 
 
@@ -357,6 +369,9 @@ def _inert(st: ast.stmt, env: dict) -> bool:
     """Statements without structural effect (each shape is exact)."""
     if isinstance(st, ast.Pass):
         return True
+    if (isinstance(st, ast.AugAssign) and isinstance(st.target, ast.Attribute) and st.target.attr == "num_access" and isinstance(st.target.value, ast.Name)
+            and env.get(st.target.value.id) == "file" and isinstance(st.op, ast.Add) and _u(st.value) == "1"):
+        return True                                     # ledger (num_access), not structure
     if isinstance(st, ast.If):
         if _u(st) in LEDGER_IFS:
             return True
@@ -413,6 +428,8 @@ def _lstmts(body: List[ast.stmt], kind: str, res: str, env: dict, ind: int) -> s
     if not body:
         if res == "unit":
             return pad + V
+        if res == "unit!":
+            return pad + f"({V}, true)"
         if res.startswith("opt"):
             return pad + "none"            # a method that may answer None falls off the end
         raise Unsupported("falls off the end")
@@ -420,16 +437,23 @@ def _lstmts(body: List[ast.stmt], kind: str, res: str, env: dict, ind: int) -> s
     # an attribute of a variable that may be None: AttributeError
     derefs = sorted({n.value.id for n in ast.walk(st.test if isinstance(st, ast.If) else (st.iter if isinstance(st, ast.For) else st))
                      if isinstance(n, ast.Attribute) and isinstance(n.value, ast.Name) and env.get(n.value.id) in ("optfile", "optfolder")})
+    RAISE = {"file!": f"({V}, none)", "unit!": f"({V}, false)"}.get(res)
     if derefs:
-        if res != "file!":
+        if RAISE is None:
             raise Unsupported("attribute of a value that may be None: " + _u(st)[:60])
         x = derefs[0]
-        return (pad + f"match {x} with\n" + pad + f"| none => ({V}, none)\n" + pad + f"| some {x} =>\n"
+        return (pad + f"match {x} with\n" + pad + f"| none => {RAISE}\n" + pad + f"| some {x} =>\n"
                 + _lstmts(body, kind, res, dict(env, **{x: env[x][3:]}), ind + 1))
     if isinstance(st, ast.Return):
         v = st.value
         if v is None or (isinstance(v, ast.Constant) and v.value is None):
+            if res == "unit!":
+                return pad + f"({V}, true)"
             return ret("none") if res.startswith("opt") else pad + V
+        if res.startswith("opt") and isinstance(v, ast.Call) and _u(v.func) in DICT_GET and len(v.args) == 1 and not v.keywords:
+            lst, what, k = DICT_GET[_u(v.func)]
+            if k == kind and what == res[3:]:
+                return pad + f"{lst}.find? (fun y => y.id == {_uuid_arg(v.args[0], env)})"
         if isinstance(v, ast.Constant) and isinstance(v.value, bool) and res == "bool":
             return ret("true" if v.value else "false")
         if isinstance(v, ast.Name) and res.startswith("opt") and env.get(v.id) in ("file", "folder"):
@@ -446,6 +470,19 @@ def _lstmts(body: List[ast.stmt], kind: str, res: str, env: dict, ind: int) -> s
             y, n = v.func.value.id, _lkw(v, "file_name", 0)
             return pad + f"(updFolder s {y}.id (fun g => (g.restoreFile {_u(n)}).1), ({y}.restoreFile {_u(n)}).2)"
         raise Unsupported("return " + _u(st))
+    if isinstance(st, ast.For) and kind == "folder" and _u(st.iter) == "self.files" and isinstance(st.target, ast.Name) and not st.orelse:
+        # `for k in self.files: X = self.files.get(k); X.delete(); self.deleted_files[k] = X` (the last two in either order: one object)
+        k = st.target.id
+        b = [x for x in st.body if not _rskip(x)]
+        if len(b) == 3 and isinstance(b[0], ast.Assign) and isinstance(b[0].targets[0], ast.Name) and _u(b[0].value) in (f"self.files.get({k})", f"self.files[{k}]"):
+            x = b[0].targets[0].id
+            if sorted(_u(z) for z in b[1:]) == sorted([f"{x}.delete()", f"self.deleted_files[{k}] = {x}"]):
+                return (pad + f"let g := {{ g with deletedFiles := g.files.foldl (fun (d : List File) ({x} : File) => dictSet File.id d {x}.delete) g.deletedFiles }}\n"
+                        + _lstmts(rest, kind, res, env, ind))
+        raise Unsupported("loop over self.files: " + _u(st)[:80])
+    if (isinstance(st, ast.Assign) and kind == "folder" and len(st.targets) == 1 and _u(st.targets[0]) == "self.files"
+            and isinstance(st.value, ast.Dict) and not st.value.keys):
+        return pad + "let g := { g with files := [] }\n" + _lstmts(rest, kind, res, env, ind)
     if isinstance(st, ast.For):
         lists = {"self.files.values()": "g.files", "self.deleted_files.values()": "g.deletedFiles",
                  "self.folders.values()": "s.folders", "self.deleted_folders.values()": "s.deletedFolders"}
@@ -519,6 +556,35 @@ def _lstmts(body: List[ast.stmt], kind: str, res: str, env: dict, ind: int) -> s
     if isinstance(st, ast.Assign) and len(st.targets) == 1 and isinstance(st.targets[0], ast.Name) and isinstance(st.value, ast.Call):
         x, c = st.targets[0].id, st.value
         f = _u(c.func)
+        if f in DICT_GET and DICT_GET[f][2] == kind and len(c.args) == 1 and not c.keywords:
+            lst, what, _k = DICT_GET[f]
+            return (pad + f"let {x} := {lst}.find? (fun y => y.id == {_uuid_arg(c.args[0], env)})\n"
+                    + _lstmts(rest, kind, res, dict(env, **{x: "opt" + what}), ind))
+        if isinstance(c.func, ast.Attribute) and c.func.attr == "get_file_by_id" and isinstance(c.func.value, ast.Name):
+            y = c.func.value.id
+            if (y == "self" and kind == "folder") or env.get(y) == "folder":
+                tgt = "g" if y == "self" else y
+                return (pad + f"let {x} := folderGetFileById {tgt} {_uuid_arg(_lkw(c, 'file_uuid', 0), env)} {_incl(_lkw(c, 'include_deleted', 1), env)}\n"
+                        + _lstmts(rest, kind, res, dict(env, **{x: "optfile"}), ind))
+        if kind == "fs" and f == "self.get_folder_by_id":
+            e2 = dict(env, **{x: "optfolder"})
+            e2["@fromfs"] = tuple(env.get("@fromfs", ())) + (x,)
+            return (pad + f"let {x} := fsGetFolderById s {_uuid_arg(_lkw(c, 'folder_uuid', 0), env)} {_incl(_lkw(c, 'include_deleted', 1), env)}\n"
+                    + _lstmts(rest, kind, res, e2, ind))
+        if kind == "fs" and f == "File" and any(k.arg is None for k in c.keywords):
+            kws = {k.arg: k.value for k in c.keywords}
+            star = kws.get(None)
+            want = "model_dump(exclude={'uuid', 'folder_id', 'folder_name', 'sim_path'})"
+            y = kws.get("folder_id")
+            if not (not c.args and set(kws) == {"folder_id", "folder_name", None} and isinstance(star, ast.Call) and isinstance(star.func, ast.Attribute)
+                    and isinstance(star.func.value, ast.Name) and env.get(star.func.value.id) == "file"
+                    and _u(star) == f"{star.func.value.id}.{want}"
+                    and isinstance(y, ast.Attribute) and y.attr == "uuid" and isinstance(y.value, ast.Name) and env.get(y.value.id) == "folder"
+                    and _u(kws["folder_name"]) == f"{y.value.id}.name"):
+                raise Unsupported("File copy constructor " + _u(c))
+            z = star.func.value.id
+            return (pad + f"let {x} : File := {{ {z} with id := s.next }}\n" + pad + "let s := { s with next := s.next + 1 }\n"
+                    + _lstmts(rest, kind, res, dict(env, **{x: "file"}), ind))
         if kind == "fs" and f == "Folder":
             kws = {k.arg: k.value for k in c.keywords}
             if c.args or set(kws) != {"name", "sys_log"} or _u(kws["sys_log"]) != "self.sys_log":
@@ -599,7 +665,7 @@ def _lstmts(body: List[ast.stmt], kind: str, res: str, env: dict, ind: int) -> s
             if call:
                 return pad + f"let {x} := {call}\n" + _lstmts(rest, kind, res, env, ind)
         if (isinstance(c.func, ast.Attribute) and c.func.attr == "add_file" and isinstance(c.func.value, ast.Name) and env.get(c.func.value.id) == "folder"
-                and res == "file!"):
+                and RAISE is not None):
             y, fa, fo_ = c.func.value.id, _lkw(c, "file", 0), _lkw(c, "force", 1)
             if not (isinstance(fa, ast.Name) and env.get(fa.id) == "file"):
                 raise Unsupported("add_file argument " + _u(c))
@@ -608,7 +674,7 @@ def _lstmts(body: List[ast.stmt], kind: str, res: str, env: dict, ind: int) -> s
                                                 ("false" if isinstance(fo_, ast.Constant) and fo_.value is False else None)))
             if frc is None:
                 raise Unsupported("add_file force " + _u(c))
-            return (pad + f"match folderAddFile {y} {fa.id} {frc} with\n" + pad + "| none => (s, none)\n" + pad + "| some _ =>\n"
+            return (pad + f"match folderAddFile {y} {fa.id} {frc} with\n" + pad + f"| none => {RAISE}\n" + pad + "| some _ =>\n"
                     + pad + f"  let s := updFolder s {y}.id (fun g => (folderAddFile g {fa.id} {frc}).getD g)\n" + _lstmts(rest, kind, res, env, ind + 1))
         if f == "self._folder_request_manager.add_request":
             nm, rt = _lkw(c, "name", 0), _lkw(c, "request_type", 1)
@@ -621,8 +687,21 @@ def _lstmts(body: List[ast.stmt], kind: str, res: str, env: dict, ind: int) -> s
         f = _u(c.func)
         if kind == "folder" and f == "self.files.pop" and len(c.args) == 1 and isinstance(c.args[0], ast.Attribute) and c.args[0].attr == "uuid":
             return pad + f"let g := {{ g with files := dictPop File.id g.files {_u(c.args[0].value)}.id }}\n" + _lstmts(rest, kind, res, env, ind)
-        if kind == "folder" and f == "self.remove_file" and len(c.args) == 1 and isinstance(c.args[0], ast.Name):
-            return pad + f"let g := g.removeFile {c.args[0].id}\n" + _lstmts(rest, kind, res, env, ind)
+        if kind == "folder" and f == "self.remove_file" and isinstance(_lkw(c, "file", 0), ast.Name) and len(c.args) + len(c.keywords) == 1:
+            x = _lkw(c, "file", 0).id
+            if env.get(x) == "optfile":          # remove_file(None) raises (its type guard)
+                if RAISE is None:
+                    raise Unsupported("remove_file of a value that may be None")
+                return (pad + f"match {x} with\n" + pad + f"| none => {RAISE}\n" + pad + f"| some {x} =>\n" + pad + f"  let g := g.removeFile {x}\n"
+                        + _lstmts(rest, kind, res, dict(env, **{x: "file"}), ind + 1))
+            if env.get(x) != "file":
+                raise Unsupported("remove_file argument " + _u(c))
+            return pad + f"let g := g.removeFile {x}\n" + _lstmts(rest, kind, res, env, ind)
+        if kind == "fs" and f == "self.delete_file" and not c.args and {k.arg for k in c.keywords} == {"folder_name", "file_name"}:
+            return (pad + f"let s := (fsDeleteFile s {_name_arg(_lkw(c, 'folder_name', 0), env)} {_name_arg(_lkw(c, 'file_name', 1), env)}).1\n"
+                    + _lstmts(rest, kind, res, env, ind))
+        if kind == "fs" and f == "self.delete_folder" and not c.args and {k.arg for k in c.keywords} == {"folder_name"}:
+            return pad + f"let s := (fsDeleteFolder s {_name_arg(_lkw(c, 'folder_name', 0), env)}).1\n" + _lstmts(rest, kind, res, env, ind)
         if (kind == "fs" and isinstance(c.func, ast.Attribute) and c.func.attr == "remove_file" and isinstance(c.func.value, ast.Name)
                 and env.get(c.func.value.id) == "folder" and len(c.args) == 1 and isinstance(c.args[0], ast.Name)):
             return (pad + f"let s := updFolder s {c.func.value.id}.id (fun g => g.removeFile {c.args[0].id})\n" + _lstmts(rest, kind, res, env, ind))
@@ -645,10 +724,20 @@ LOOKUP_METHODS = [  # (class, method, lean name, kind, result, parameters (pytho
     ("FileSystem", "restore_file", "fsRestoreFile", "fs", "bool", [("folder_name", "Name", None), ("file_name", "Name", None)]),
     ("FileSystem", "restore_folder", "fsRestoreFolder", "fs", "bool", [("folder_name", "Name", "name")]),
     ("FileSystem", "delete_folder", "fsDeleteFolder", "fs", "bool", [("folder_name", "Name", "name")]),
+    # round 7, second batch: the uuid-keyed API and the loop of remove_all_files
+    ("Folder", "get_file_by_id", "folderGetFileById", "folder", "optfile", [("file_uuid", "Nat", "uuid"), ("include_deleted", "Bool", "bool")]),
+    ("Folder", "remove_file_by_id", "folderRemoveFileById", "folder", "unit!", [("file_uuid", "Nat", "uuid")]),
+    ("Folder", "remove_all_files", "folderRemoveAllFiles", "folder", "unit", []),
+    ("FileSystem", "get_folder_by_id", "fsGetFolderById", "fs", "optfolder", [("folder_uuid", "Nat", "uuid"), ("include_deleted", "Bool", "bool")]),
+    ("FileSystem", "delete_file_by_id", "fsDeleteFileById", "fs", "unit!", [("folder_uuid", "Nat", "uuid"), ("file_uuid", "Nat", "uuid")]),
+    ("FileSystem", "delete_folder_by_id", "fsDeleteFolderById", "fs", "unit!", [("folder_uuid", "Nat", "uuid")]),
+    ("FileSystem", "copy_file", "fsCopyFile", "fs", "unit!", [("src_folder_name", "Name", "name"), ("src_file_name", "Name", "name"),
+                                                              ("dst_folder_name", "Name", "name")]),
 ]
 RESULT_TYPE = {("folder", "optfile"): "Option File", ("folder", "unit"): "Folder", ("folder", "bool"): "Folder × Bool",
                ("fs", "optfolder"): "Option Folder", ("fs", "bool"): "State × Bool", ("fs", "optfile"): "Option File",
-               ("fs", "folder"): "State × Folder", ("fs", "file!"): "State × Option File", ("fs", "unit"): "State"}
+               ("fs", "folder"): "State × Folder", ("fs", "file!"): "State × Option File", ("fs", "unit"): "State",
+               ("fs", "unit!"): "State × Bool", ("folder", "unit!"): "Folder × Bool"}
 
 FILE_METHODS = [("restore", "fileRestore"), ("delete", "fileDelete"), ("scan", "fileScan"), ("repair", "fileRepair"),
                 ("corrupt", "fileCorrupt"), ("check_hash", "fileCheckHash")]
